@@ -2,6 +2,9 @@
 # Regenerates harness/go.mod and go.sum from /repo's current go.mod/go.sum.
 set -e
 H=/verif/harness
+mkdir -p /verif/bin
+exec 8>/verif/bin/.gomodlock
+flock 8
 {
   echo "module verifharness"; echo; echo "go 1.18"; echo
   echo "require github.com/kardiachain/go-kardia v0.0.0"
@@ -11,8 +14,8 @@ H=/verif/harness
   echo
   # copy every require block / line and replace directives of the repo
   awk '/^require \(/{p=1} p{print} /^\)/{if(p){p=0;print ""}} /^require [^(]/{print} /^replace /{print}' /repo/go.mod
-} > $H/go.mod.new
-if ! cmp -s $H/go.mod.new $H/go.mod 2>/dev/null; then mv $H/go.mod.new $H/go.mod; else rm $H/go.mod.new; fi
+} > $H/go.mod.new.$$
+if ! cmp -s $H/go.mod.new.$$ $H/go.mod 2>/dev/null; then mv $H/go.mod.new.$$ $H/go.mod; else rm $H/go.mod.new.$$; fi
 if [ ! -f $H/go.sum ] || [ /repo/go.sum -nt $H/go.sum ]; then
-  cat /repo/go.sum /verif/tools/extra.sum 2>/dev/null | sort -u > $H/go.sum
+  cat /repo/go.sum /verif/tools/extra.sum 2>/dev/null | sort -u > $H/go.sum.$$ && mv $H/go.sum.$$ $H/go.sum
 fi
